@@ -1049,6 +1049,12 @@ def j_setdiff1d(I, args, kw):
     raise Undecided("setdiff1d")
 
 
+def j_det(I, args, kw):
+    """det(A) = exp(LnDet(A)) for the positive definite matrices of the library (exact arithmetic; that log(det(.)) overflows where
+    slogdet does not is the log-domain rule's business)"""
+    return nf.elementwise("Exp", nf.logdet(_arr(args[0])))
+
+
 def j_linalg_inv(I, args, kw):
     v = _arr(args[0])
     nt = nf.normalize(v)
@@ -1394,7 +1400,7 @@ EXT = {
     "jax.numpy.matmul": j_matmul, "jax.numpy.transpose": j_transpose, "jax.numpy.expand_dims": j_expand_dims,
     "jax.numpy.broadcast_to": j_broadcast_to, "jax.numpy.zeros_like": j_zeros_like, "jax.numpy.ones_like": j_ones_like,
     "jax.numpy.repeat": j_repeat, "jax.numpy.asarray": j_array, "jax.numpy.float64": lambda I, a, k: a[0],
-    "jax.numpy.linalg.slogdet": j_slogdet, "jax.numpy.linalg.inv": j_linalg_inv, "jax.numpy.linalg.cholesky": j_cholesky,
+    "jax.numpy.linalg.slogdet": j_slogdet, "jax.numpy.linalg.inv": j_linalg_inv, "jax.numpy.linalg.det": j_det, "jax.numpy.linalg.cholesky": j_cholesky,
     "jax.scipy.linalg.cho_factor": j_cho_factor, "jax.scipy.linalg.cho_solve": j_cho_solve,
     "jax.random.normal": r_normal, "jax.random.PRNGKey": r_prngkey, "jax.random.key": r_prngkey,
     "jax.lax.stop_gradient": l_stop_gradient,
